@@ -120,11 +120,14 @@ E2E_LINES = {
     "r/ab.py": ["import r.aab", "import r.test.t"],
     "r/c(1)/k.py": ["import r.ab", "import r.mytest"],
     "r/test/t.py": ["import r.ab"],
-    "r/mytest.py": ["import r.aab"],
+    # 'from r import test' names the PACKAGE r.test (a directory): it stays a module when only the files below it are
+    # excluded, and the import of it must stay as it is
+    "r/mytest.py": ["import r.aab", "from r import test"],
 }
 P = "/symfs/"
 PATTERN_SETS = [
     ("*a+b.py",),
+    ("*/t.py",),
     ("*c(1)*",),
     (P + "r/c(1)",),
     (P + "r/x$y.py",),
@@ -168,6 +171,7 @@ REGEX_SETS = [
     (r".*/(\w)\1b\.py$", r".*/(a|c)\+b\.py$"),
     (r".*/(?P<n>t)es(?P=n)$",),
     (r".*test",),
+    (r".*/test/[a-z]\.py$",),
     (P + "r/ab",),
     (r"r/ab\.py",),
     (r".*/ab\.py$|.*/k\.py$",),
@@ -176,6 +180,24 @@ REGEX_SETS = [
     (r"test.*", r".*test$"),
     (r".*/a.*", r".*/aab\.py$", r".*/c\(1\)$"),
 ]
+
+
+def renamed_from_imports(model: FSModel, existing: set, gone: set) -> set:
+    """Imports that legitimately CHANGE their target when a module is excluded: 'from P import n' names P.n while that
+    is a scanned module and P otherwise (the naming rule of C02), so excluding P.n turns the import into one of P.
+    The property's 'exactly as in the scan without that pattern' cannot hold for this one import; it is left out of
+    the comparison (don't-care), every other import is compared."""
+    import ast as _ast
+
+    dc = set()
+    for f in existing:
+        for ln in model.lines.get(f, []):
+            node = _ast.parse(ln).body[0]
+            if isinstance(node, _ast.ImportFrom) and node.level == 0 and node.module:
+                for al in node.names:
+                    if f"{node.module}.{al.name}" in gone:
+                        dc.add((dotted(f), node.module))
+    return dc
 
 
 def e2e_regex_judge(model: FSModel, existing: set, patterns, base: str, plain, filtered):
@@ -193,6 +215,8 @@ def e2e_regex_judge(model: FSModel, existing: set, patterns, base: str, plain, f
     want_nodes = set() if "r" in gone else n0 - gone
     want_imp = {(u, v) for u, v in i0 if u in want_nodes and v in want_nodes}
     _, n1, i1, h1 = filtered
+    dc = renamed_from_imports(model, existing, gone)
+    want_imp, i1 = want_imp - dc, i1 - dc
     if n1 != want_nodes:
         return ("MISMATCH", f"regex_exclusions: modules {sorted(want_nodes)}", f"modules {sorted(n1)}")
     if i1 != want_imp:
@@ -250,8 +274,11 @@ def e2e_judge(model: FSModel, existing: set, patterns, base: str, plain, filtere
     if "r" in gone:
         want_nodes = set()
     want_imp = {(u, v) for u, v in i0 if u in want_nodes and v in want_nodes}
+    dc = renamed_from_imports(model, existing, gone)
+    want_imp = want_imp - dc
     for name, sc in (("exclusions", filtered), ("regex_exclusions", filtered_re)):
         _, n1, i1, h1 = sc
+        i1 = i1 - dc
         if n1 != want_nodes:
             return ("MISMATCH", f"{name}: modules {sorted(want_nodes)}", f"modules {sorted(n1)}")
         if i1 != want_imp:
